@@ -2,6 +2,7 @@ import Netpol.Model.WorldParse
 import Netpol.Model.Engine
 import Netpol.Model.Diff
 import Netpol.Model.Ingress
+import Netpol.Model.Cache
 /-! Driver side of the world-level correspondence (`wcase` lines). -/
 namespace Netpol
 namespace WorldDriver
@@ -40,8 +41,40 @@ def runList (objs : List Obj) (focus : String) : Sexp :=
                 (lines.map fun l => .list (.atom "e" :: (l.splitOn " ").map .atom)) ++
                 (if blocked.isEmpty then [] else [.list (.atom "blocked" :: (sortStrs blocked).map .atom)]))
 
+def probeIPs : List String :=
+  ["0.0.0.0", "10.0.0.1", "10.1.2.3", "10.1.2.77", "10.128.0.1", "11.0.0.0", "128.0.0.1", "172.16.0.1", "192.168.0.5", "192.168.1.1", "255.255.255.255"]
+
+def portPool : List Int := [1, 53, 79, 80, 81, 443, 1023, 1024, 8080, 9090, 65534, 65535]
+
+def probePorts : List Int :=
+  (((portPool.flatMap fun p => [p - 1, p, p + 1]).filter fun q => 1 ≤ q ∧ q ≤ 65535).mergeSort (· ≤ ·)).eraseDups
+
+/-- `(evalall)`: CheckIfAllowed for every ordered pair of pods / probe addresses, protocol and probe port, on one
+engine built like `list` builds it (so the verdict cache is exercised as well) -/
+def runEvalAll (objs : List Obj) : Sexp :=
+  match Engine.build objs with
+  | .error e => errSx e
+  | .ok eng =>
+    let podKeys := sortStrs ((objs.filterMap fun o => match o with
+      | .pod p => some (p.ns ++ "/" ++ p.name)
+      | .wl w => some (w.ns ++ "/" ++ w.name ++ "-1")
+      | _ => none).eraseDups)
+    let peers := podKeys ++ probeIPs
+    let isIP (s : String) : Bool := !EState.strContains s "/"
+    -- the cache of a fresh engine: default capacity 500, owner bookkeeping from the inserted pods
+    let s0 : EState := eng.pods.foldl (fun acc p => acc.cacheAddPod p) { eng := eng }
+    let (bits, _) := peers.foldl (fun (acc : String × EState) s =>
+      peers.foldl (fun (acc : String × EState) d =>
+        if s == d || (isIP s && isIP d) then acc
+        else ["TCP", "UDP", "SCTP"].foldl (fun (acc : String × EState) pr =>
+          probePorts.foldl (fun (acc : String × EState) p =>
+            let (r, st) := acc.2.checkIfAllowed s d pr (toString p)
+            (acc.1 ++ (match r with | .ok true => "1" | .ok false => "0" | .error _ => "e"), st)) acc) acc) acc) ("", s0)
+    .list [.atom "evalall", .atom bits]
+
 def runQuery (objs : List Obj) (q : Sexp) : Sexp :=
   match q with
+  | .list [.atom "evalall"] => runEvalAll objs
   | .list [.atom "list", .atom f] => runList objs (if f == "-" then "" else f)
   | _ => .atom "bad-query"
 
